@@ -213,7 +213,7 @@ def obs_events(chk):
     names = window_names()
     reps = 40 if chk.tier == 'quick' else 400
     for rep in range(reps):
-        N = int(rng.choice([1, 2, 5, 16, 33, 64, 127, 256, 512]))
+        N = int(rng.choice([1, 2, 5, 16, 33, 64, 127, 256, 512])) if rep >= 3 else [256, 257, 300][rep]     # (first: sizes past 255)
         kind = int(rng.randint(4))
         if kind == 0:
             x = rng.randn(N) + 1j * rng.randn(N)
@@ -251,7 +251,7 @@ def obs_events(chk):
                 ev.update(parseval_dev=0, len_ok=False, class_dev=0, real_prefix_dev=0)
         batch.add(ev, {'N': N, 'nfft': nfft, 'window': name, 'kind': kind, 'seed': chk.seed, 'rep': rep})
         # Wiener-Khinchin on float data
-        if 2 <= N <= 128:
+        if 2 <= N <= 128 or rep < 3:
             nf2 = int(2 * N - 1 + rng.randint(0, 5))
             ev = {'ev': 'wk', 'N': N, 'nfft': nf2, 'kind': kind}
             ok, p = call_guard(speriodogram, x.copy(), NFFT=nf2, detrend=False, scale_by_freq=False, window='rectangular')
